@@ -101,6 +101,7 @@ macro_rules! atomic_op {
             // 6. NOTE: The above check is not redundant with the check in ValidateIntegerTypedArray because the call
             //    to ToBigInt or ToIntegerOrInfinity on the preceding lines can have arbitrary side effects, which could
             //    cause the buffer to become detached.
+            let buf_len = revalidate_atomic_access(&ta, access)?;
             let ta = ta.borrow();
             let ta = ta.data();
             let mut buffer = ta.viewed_array_buffer().as_buffer_mut();
@@ -193,6 +194,7 @@ impl Atomics {
         let access = validate_atomic_access(&ta, buf_len, index, context)?;
 
         // 2. Perform ? RevalidateAtomicAccess(typedArray, indexedPosition).
+        let buf_len = revalidate_atomic_access(&ta, access)?;
         let ta = ta.borrow();
         let ta = ta.data();
         let buffer = ta.viewed_array_buffer().as_buffer();
@@ -241,6 +243,7 @@ impl Atomics {
         let value = access.kind.get_element(&converted, context)?;
 
         // 4. Perform ? RevalidateAtomicAccess(typedArray, indexedPosition).
+        let buf_len = revalidate_atomic_access(&ta, access)?;
         let ta = ta.borrow();
         let ta = ta.data();
         let mut buffer = ta.viewed_array_buffer().as_buffer_mut();
@@ -289,6 +292,7 @@ impl Atomics {
         let rep = access.kind.get_element(replacement, context)?.to_bits();
 
         // 6. Perform ? RevalidateAtomicAccess(typedArray, indexedPosition).
+        let buf_len = revalidate_atomic_access(&ta, access)?;
         let ta = ta.borrow();
         let ta = ta.data();
         let mut buffer = ta.viewed_array_buffer().as_buffer_mut();
@@ -703,6 +707,44 @@ fn validate_atomic_access(
         byte_offset: offset,
         kind,
     })
+}
+
+/// [`RevalidateAtomicAccess ( typedArray, byteIndexInBuffer )`][spec]
+///
+/// Returns the current byte length of the viewed buffer. The conversions of the index and value
+/// arguments run arbitrary code, which can detach or shrink the buffer after the access was
+/// validated.
+///
+/// [spec]: https://tc39.es/ecma262/#sec-revalidateatomicaccess
+fn revalidate_atomic_access(array: &JsObject<TypedArray>, access: AtomicAccess) -> JsResult<usize> {
+    let array = array.borrow();
+    let array = array.data();
+
+    // 1. Let taRecord be MakeTypedArrayWithBufferWitnessRecord(typedArray, unordered).
+    // 2. NOTE: Bounds checking is not a synchronizing operation when typedArray's backing buffer is a growable SharedArrayBuffer.
+    // 3. If IsTypedArrayOutOfBounds(taRecord) is true, throw a TypeError exception.
+    let buffer = array.viewed_array_buffer().as_buffer();
+    let Some(buf_len) = buffer
+        .bytes(Ordering::Relaxed)
+        .filter(|buf| !array.is_out_of_bounds(buf.len()))
+        .map(|buf| buf.len())
+    else {
+        return Err(JsNativeError::typ()
+            .with_message("typed array is outside the bounds of its inner buffer")
+            .into());
+    };
+
+    // 4. Assert: byteIndexInBuffer ≥ typedArray.[[ByteOffset]].
+    // 5. If byteIndexInBuffer ≥ taRecord.[[CachedBufferByteLength]], throw a RangeError exception.
+    // NOTE: the whole element must lie inside of the buffer.
+    if access.byte_offset + access.kind.element_size() as usize > buf_len {
+        return Err(JsNativeError::range()
+            .with_message("index for typed array outside of bounds")
+            .into());
+    }
+
+    // 6. Return unused.
+    Ok(buf_len)
 }
 
 #[cfg(test)]
